@@ -326,6 +326,18 @@ def singleProducerOk (toks : List String) : Bool :=
   | some (b, _) => b
   | none => true
 
+/-- No two files of the loaded graph are spellings of the same location (the loader
+    canonicalises every path before interning it). -/
+def oneNodePerLocation (toks : List String) : Bool :=
+  let p : P Bool := do
+    kw "ok"; kw "F"
+    let names ← counted (do let n ← bytes; let _ ← optNat; let _ ← counted nat; pure n)
+    let canon := names.map (fun n => match Canon.canon n with | .ok c => c | _ => n)
+    pure (canon.eraseDups.length == canon.length)
+  match p.run toks with
+  | some (b, _) => b
+  | none => true
+
 /-- Mask the `L<line>` tokens: line numbers legitimately differ between spellings. -/
 def maskLines (toks : List String) : List String :=
   toks.map (fun t => if t.startsWith "L" && (t.drop 1).toString.toNat?.isSome then "L" else t)
@@ -341,8 +353,8 @@ def opD : P World.Op := do
   | "W" => do let n ← bytes; let m ← nat; let c ← bytes; pure (.write n m c)
   | "D" => do let n ← bytes; pure (.delete n)
   | "I" => do
-    let par ← nat; let k ← optNat; let ad ← nat; let ts ← counted bytes
-    pure (.invoke { par := par, k := k, adopt := ad == 1, targets := ts, manifestName := bytesOfString "build.ninja" })
+    let par ← nat; let k ← optNat; let ad ← nat; let ts ← counted bytes; let mf ← bytes
+    pure (.invoke { par := par, k := k, adopt := ad == 1, targets := ts, manifestName := mf })
   | _ => failure
 
 structure InvObs where
@@ -633,6 +645,9 @@ def handle (case impl : List String) : String :=
       | _ => []
     let parentsExist := os.all (fun o => (Task.parentOf o).isEmpty || have_.contains (hexOfBytes (Task.parentOf o)))
     want ++ mons [("outputDirsExist", parentsExist && impl.head? == some "code=0")]
+  | "anomalies" :: _ =>
+    "none" ++ mons [("totalIsSum", !impl.any (fun t => t.startsWith "X-total")),
+                    ("notesHidden", !impl.any (fun t => t.startsWith "X-note"))]
   | "sched" :: rest => handleSched rest impl
   | "hist" :: rest => handleHist rest impl
   | "load" :: rest =>
@@ -640,7 +655,7 @@ def handle (case impl : List String) : String :=
     | some ((main, files), []) =>
       let diag := match impl with
         | "ok" :: _ => true | "perr" :: _ => true | "err" :: _ => true | _ => false
-      LoadDrv.runLoad main files ++ mons [("loadedOrDiagnostic", diag), ("singleProducer", LoadDrv.singleProducerOk impl),
+      LoadDrv.runLoad main files ++ mons [("loadedOrDiagnostic", diag), ("singleProducer", LoadDrv.singleProducerOk impl), ("oneNodePerLocation", LoadDrv.oneNodePerLocation impl),
         ("includeExtendsScope", LoadDrv.runLoadWith true main files == " ".intercalate impl)]
     | _ => "bad-case"
   | "loadpair" :: rest =>
@@ -663,8 +678,9 @@ def handle (case impl : List String) : String :=
         | [a, _] => LoadDrv.runLoadWith true m1 f1 == a.trimAscii.toString
         | _ => false
       let sp := implParts.all (fun a => LoadDrv.singleProducerOk ((a.splitOn " ").filter (· ≠ "")))
+      let onl := implParts.all (fun a => LoadDrv.oneNodePerLocation ((a.splitOn " ").filter (· ≠ "")))
       r1 ++ " || " ++ r2 ++ mons [("spellingIndependent", spellingIndep), ("loadedOrDiagnostic", diag), ("singleProducer", sp),
-        ("includeExtendsScope", inclOk)]
+        ("oneNodePerLocation", onl), ("includeExtendsScope", inclOk)]
     | _ => "bad-case"
   | "dbw" :: rest => handleDbw rest
   | "dbr" :: rest => handleDbr rest impl
